@@ -1060,6 +1060,12 @@ def packing(c, seed=(0,), ncoef=6, nconst=3, arity=1, use_dS=True, mode="subsets
         return [xs[i] for i in idx]
 
     form = integrand(pick(coefs, 1), pick(consts), ) * dx
+    if mode == "rules":
+        # several quadrature rules inside ONE kernel, each rule with its own coefficient subset (flags are per kernel, not per rule)
+        for q in (1, 3, 4):
+            form += integrand(pick(coefs, 1), pick(consts)) * dx(metadata={"quadrature_degree": q})
+            form += integrand(pick(coefs, 1), pick(consts)) * ds(metadata={"quadrature_degree": q})
+        form += integrand(pick(coefs, 1), pick(consts)) * dx(metadata={"quadrature_rule": "vertex", "quadrature_degree": 1})
     form += integrand(pick(coefs, 1), pick(consts)) * ds
     form += integrand(pick(coefs), pick(consts)) * dx(1)
     if use_dS:
@@ -1549,6 +1555,51 @@ def arg_pair(c, test=("iso", 1), trial=("Lagrange", 2), itype="cell"):
     if itype == "exterior_facet":
         return (1.0 + f * f) * u * v * ds
     return (1.0 + f("+") * f("-")) * u("+") * v("-") * dS + avg(u) * avg(v) * dS
+
+
+@builder
+def same_integrand_twice(c, how="explicit_equals_estimated", itype="cell", sid=None):
+    """The SAME integrand declared twice under one (type, id) with metadata that differ as dictionaries but resolve to the same
+    quadrature rule: the user declared it twice, so it counts twice."""
+    V = c.V("Lagrange", 1)
+    u, v = TrialFunction(V), TestFunction(V)
+    R = (lambda e: e("+")) if itype == "interior_facet" else (lambda e: e)
+    g = R(u) * R(v)
+    kw = {} if sid is None else {"subdomain_id": sid}
+    if how == "explicit_equals_estimated":
+        mds = [None, {"quadrature_degree": 2}]
+    elif how == "scheme_default":
+        mds = [None, {"quadrature_rule": "default"}]
+    elif how == "degree0_1":
+        mds = [{"quadrature_degree": 0}, {"quadrature_degree": 1}]
+    else:  # three times
+        mds = [None, {"quadrature_degree": 2}, {"quadrature_rule": "default", "quadrature_degree": 2}]
+    form = None
+    for md in mds:
+        t = g * (measure(itype, **kw) if md is None else measure(itype, metadata=md, **kw))
+        form = t if form is None else form + t
+    return form
+
+
+@builder
+def tensor3(c, shape=(2, 3, 2), itype="cell", arity=1):
+    """Rank-3 tensor-valued constant, coefficient and arguments (blocked element) with unequal extents, fully contracted and with
+    single entries: the flat index of every component is used for c, w and A."""
+    sh = tuple(shape)
+    K = Constant(c.mesh, shape=sh)
+    el = basix.ufl.blocked_element(c.el("Lagrange", 1), shape=sh)
+    V = c.space(el)
+    f = Coefficient(V)
+    v = TestFunction(V)
+    u = TrialFunction(V)
+    last = tuple(n - 1 for n in sh)
+    mid = (0, sh[1] - 1, 0)
+    m = measure(itype)
+    if itype == "interior_facet":
+        return inner(K, v("+")) * m + inner(f("-"), v("-")) * m + K[last] * f("+")[mid] * v("-")[last] * m
+    if arity == 2:
+        return (1.0 + K[mid] * f[last]) * inner(u, v) * m + K[last] * u[mid] * v[last] * m
+    return inner(K, v) * m + inner(f, v) * m + K[last] * f[mid] * v[last] * m
 
 
 @builder
